@@ -396,6 +396,17 @@ def unwrap (c : Option PCtx) : Obj → Except Err (Obj × Path)
         | .error e => .error e
         | .ok (o, p) => pure (o, key :: p)
       | _ => pure (.view k st off sz ms, [])
+  | .const k sz v fl ms =>
+    match argFields c (.const k sz v fl ms) with
+    | .error e => .error e
+    | .ok none => pure (.const k sz v fl ms, [])
+    | .ok (some _) =>
+      match ms with
+      | .cons key m .nil =>
+        match unwrap c m with
+        | .error e => .error e
+        | .ok (o, p) => pure (o, key :: p)
+      | _ => pure (.const k sz v fl ms, [])
   | o => pure (o, [])
 
 def srcOf (c : Option PCtx) : Obj → Src
@@ -484,11 +495,21 @@ def assignObj (lhs : Obj) (lc : Option PCtx) (rc : Option PCtx) (rhs : Obj) (sel
     | .error e => .error e
     | .ok .leaf => assignLeaf lc (.val st off w sg e) (strip rc rhs).1 (strip rc rhs).2 sel ls rs lp rp
     | .ok (.descend _) => throw .keyError        -- unreachable: a value has no members
-  | .int v =>
-    match plan lc (.int v) (strip rc rhs).1 (strip rc rhs).2 sel with
+  | .int v w sg en =>
+    match plan lc (.int v w sg en) (strip rc rhs).1 (strip rc rhs).2 sel with
     | .error e => .error e
-    | .ok .leaf => assignLeaf lc (.int v) (strip rc rhs).1 (strip rc rhs).2 sel ls rs lp rp
+    | .ok .leaf => assignLeaf lc (.int v w sg en) (strip rc rhs).1 (strip rc rhs).2 sel ls rs lp rp
     | .ok (.descend _) => throw .keyError
+  | .enumv st off w id =>
+    match plan lc (.enumv st off w id) (strip rc rhs).1 (strip rc rhs).2 sel with
+    | .error e => .error e
+    | .ok .leaf => assignLeaf lc (.enumv st off w id) (strip rc rhs).1 (strip rc rhs).2 sel ls rs lp rp
+    | .ok (.descend _) => throw .keyError
+  | .const k sz v fl ms =>
+    match plan lc (.const k sz v fl ms) (strip rc rhs).1 (strip rc rhs).2 sel with
+    | .error e => .error e
+    | .ok .leaf => assignLeaf lc (.const k sz v fl ms) (strip rc rhs).1 (strip rc rhs).2 sel ls rs lp rp
+    | .ok (.descend names) => assignMembers ms lc true (strip rc rhs).1 (strip rc rhs).2 sel names lp rp
 /-- the loop `for name in names: yield from rec_call(name)` (assign.py:168-174, :189), walked in the order
     of the members of `lhs`; `lvl` = `isinstance(lhs, ValueLike)` -/
 def assignMembers (ms : Members) (lc : Option PCtx) (lvl : Bool) (rc : Option PCtx) (rhs : Obj) (sel : Sel)
